@@ -96,6 +96,15 @@ int main(int argc, char** argv) {
       int ub;
       std::string o;
       VT_GUARD(ub, o = detail::format(fmt, tp, detail::femtoseconds(fs), tz));
+      // the same call again after an unrelated one that needs a much larger scratch area: no call may leave anything behind
+      int hist = 1;
+      if (tag == "F" && !ub) {
+        int ubh = 0;
+        std::string o2;
+        static const std::string big = "%a " + std::string(700, '-') + " %c%c%c%c";
+        VT_GUARD(ubh, (void)detail::format(big, tp, detail::femtoseconds(0), tz); o2 = detail::format(fmt, tp, detail::femtoseconds(fs), tz));
+        if (ubh || o2 != o) hist = 0;
+      }
       if (tag == "F") {
         std::tm tm = to_tm(al);
         std::string env = "[";
@@ -107,7 +116,7 @@ int main(int argc, char** argv) {
           firstj = false;
         }
         env += "]";
-        out.emit("{\"e\":\"Format\"" + hdr + ",\"out\":" + bj(o) + ",\"env\":" + env + ",\"ub\":" + std::to_string(ub) + "}");
+        out.emit("{\"e\":\"Format\"" + hdr + ",\"out\":" + bj(o) + ",\"env\":" + env + ",\"hist\":" + std::to_string(hist) + ",\"ub\":" + std::to_string(ub) + "}");
       } else {
         // C07: parse what format produced, in another zone; it must give back the instant
         const time_zone& other = zones[(size_t)((k * 3 + 1) % zones.size())];
